@@ -8,13 +8,39 @@ import Minicbor.Lemmas.BalancedSpec
 import Minicbor.Lemmas.BalancedHalf
 import Minicbor.Lemmas.TokenEnc
 import Minicbor.Lemmas.TokenParse
-import Minicbor.Lemmas.TypesItem
 
 namespace Minicbor
-open C11
+open C11 Dec
 
 theorem intW_eq (v : Int) : intW v = prefTree (C03.intItem v) := by
   unfold intW C03.intItem; split <;> rfl
+
+/-- every integer method (argument within its Rust type) writes the shortest head of the integer
+    it is given, and that item is well-formed. -/
+theorem int_call_denote (k : IntKind) (v : Int) (h : k.inRange v = true) :
+    k.enc v = encW (intW v) ∧ (intW v).valid = true := by
+  unfold IntKind.inRange at h
+  rw [Bool.and_eq_true, decide_eq_true_eq, decide_eq_true_eq] at h
+  have hv : (intW v).valid = true := by
+    unfold intW
+    cases k <;> simp [IntKind.ty, IntTy.lo, IntTy.hi, IntTy.u8, IntTy.u16, IntTy.u32, IntTy.u64,
+      IntTy.i8, IntTy.i16, IntTy.i32, IntTy.i64, IntTy.int] at h <;>
+      split <;> simp only [WItem.valid] <;> exact prefWidth_fits _ (by omega)
+  refine ⟨?_, hv⟩
+  rw [intW_eq]
+  cases k <;> simp [IntKind.ty, IntTy.lo, IntTy.hi, IntTy.u8, IntTy.u16, IntTy.u32, IntTy.u64,
+     IntTy.i8, IntTy.i16, IntTy.i32, IntTy.i64, IntTy.int] at h <;> simp only [IntKind.enc]
+  · rw [C03.u8_pref _ (by omega)]; simp [C03.intItem, h.1, encPref]
+  · rw [C03.u16_pref _ (by omega)]; simp [C03.intItem, h.1, encPref]
+  · rw [C03.u32_pref _ (by omega)]; simp [C03.intItem, h.1, encPref]
+  · rw [C03.u64_pref _ (by omega)]; simp [C03.intItem, h.1, encPref]
+  · exact C03.i8_pref _ (by omega)
+  · exact C03.i16_pref _ (by omega)
+  · exact C03.i32_pref _ (by omega)
+  · exact C03.i64_pref _ (by omega)
+  · split
+    · rw [C03.int_pref _ _ (by omega)]; simp [C03.intItem, encPref, *]
+    · rw [C03.int_pref _ _ (by omega)]; simp [C03.intItem, encPref, *]
 
 theorem validAll_append (a b : List WItem) : validAll (a ++ b) = (validAll a && validAll b) := by
   induction a with
@@ -43,19 +69,19 @@ theorem scalar_denote {t : Token} {w : WItem} (hs : scalarW t = some w) (hok : t
     exact ⟨C03.u64_pref n h, by simp [WItem.valid, prefWidth_fits n h]⟩
   case i8 v =>
     have h : IntKind.inRange .i8 v = true := by simpa [Token.callOk, Token.ok] using hok
-    rw [intW_eq]; exact ⟨IntKind.enc_pref .i8 v h, intItem_valid .i8 v h⟩
+    exact int_call_denote .i8 v h
   case i16 v =>
     have h : IntKind.inRange .i16 v = true := by simpa [Token.callOk, Token.ok] using hok
-    rw [intW_eq]; exact ⟨IntKind.enc_pref .i16 v h, intItem_valid .i16 v h⟩
+    exact int_call_denote .i16 v h
   case i32 v =>
     have h : IntKind.inRange .i32 v = true := by simpa [Token.callOk, Token.ok] using hok
-    rw [intW_eq]; exact ⟨IntKind.enc_pref .i32 v h, intItem_valid .i32 v h⟩
+    exact int_call_denote .i32 v h
   case i64 v =>
     have h : IntKind.inRange .i64 v = true := by simpa [Token.callOk, Token.ok] using hok
-    rw [intW_eq]; exact ⟨IntKind.enc_pref .i64 v h, intItem_valid .i64 v h⟩
+    exact int_call_denote .i64 v h
   case int v =>
     have h : IntKind.inRange .int v = true := by simpa [Token.callOk, Token.ok] using hok
-    rw [intW_eq]; exact ⟨IntKind.enc_pref .int v h, intItem_valid .int v h⟩
+    exact int_call_denote .int v h
   case f16 x =>
     have h : x < 4294967296 := by simpa [Token.callOk, Token.ok] using hok
     exact ⟨rfl, by simpa [WItem.valid] using f32ToF16_lt x h⟩
